@@ -27,17 +27,17 @@ LEVEL_NOTE = (
 TECHNIQUE = "property-based testing: metamorphic relations over Hypothesis random inputs + fresh-process determinism runs"
 DESIGN_REF = "DESIGN.md section 5 (C09)"
 RULE = (
-    "Hypothesis cases: binary input with 2..10 object leaves, <=8 species leaves (quick tier: ext_spfs <=8 object / <=6 species leaves), <=4 families, coherent costs, one of thl, ext_spfs, superdtl, "
+    "Hypothesis cases: binary input with 2..10 object leaves (five cases in six with <=6 object / <=5 species leaves, where sets are compared; the others 7..10 object leaves), <=8 species leaves (quick tier: ext_spfs <=8 object / <=6 species leaves), <=4 families, coherent costs, one of thl, ext_spfs, superdtl, "
     "base_spfs, base_uspfs and drawn transformation parameters.  Relations checked per case: R1 children reversed at drawn nodes of both trees "
     "(same cost, same set); R2 bijective renaming of object nodes, species and families (same cost, same set modulo the bijection); R3 outgroup "
     "species without objects above the root (same cost; same set if floss>0, else old set included and every extra solution maps a node to the "
     "new root); R4 solving again on the same input object, on a re-parsed input, and on the same object after its costs were changed in place and changed back (identical to fresh inputs with those costs); R5 all costs x k, k in {2,3,5} (cost x k, same "
-    "set); R6 one unit cost raised by 1..3 inside the region (cost not lower).  Sets are compared (policy ALL) up to 6 object leaves, costs "
-    "only (policy ANY) above.  Extra part: a batch of cases is solved in 3 fresh interpreters with PYTHONHASHSEED 0, 1 and VERIF_SEED and the "
+    "set); R6 one unit cost raised by 1..3 inside the region (cost not lower).  Sets are compared (policy ALL) up to 6 object leaves unless they can explode (sloss=0 with >2 families, floss=hgt=0 with >1 family, >6 root orders), costs "
+    "only (policy ANY) otherwise; at 7..9 object leaves sets are compared for thl, base_spfs, base_uspfs and superdtl when every unit cost is positive.  Extra part: a batch of cases is solved in 3 fresh interpreters with PYTHONHASHSEED 0, 1 and VERIF_SEED and the "
     "JSON results must be identical.  Non-trivial: >=3 object leaves and the source optimum has positive cost; distinct by SHA-1 of the case."
 )
 ASSUMPTIONS = ["coherent costs before and after every transformation", "fresh names never look like O#/S#/NoName"]
-BUDGET = {"quick": {"random": 1200}, "thorough": {"random": 20000}}
+BUDGET = {"quick": {"random": 3000}, "thorough": {"random": 40000}}
 ALGOS = ["thl", "ext_spfs", "superdtl", "base_spfs", "base_uspfs"]
 SET_LIMIT_LEAVES = 6
 
@@ -49,7 +49,14 @@ def _case(draw, tier="thorough"):
     # ext_spfs at 9-10 object leaves x 8 species x 4 families without a prescribed root costs ~8 s per solve and a case
     # needs 12 solves: the quick tier stops at 8 x 6 for that solver (measured: 4 such cases took 360 of 380 s of a shard)
     max_obj, max_sp = (8, 6) if (tier == "quick" and algo == "ext_spfs") else (10, 8)
-    case = draw(gen.rec_case(max_obj=max_obj, max_sp=max_sp, min_obj=2, costs="coherent", labelled=labelled, max_fam=4,
+    min_obj = 2
+    if gen.chance(draw, 5, 6):
+        # five cases in six are small enough for the complete optimal sets to be compared (cheap: the relations on
+        # sets are where most presentation-dependence shows); the sixth is beyond brute-force reach, costs only
+        max_obj, max_sp = SET_LIMIT_LEAVES, 5
+    else:
+        min_obj = SET_LIMIT_LEAVES + 1
+    case = draw(gen.rec_case(max_obj=max_obj, max_sp=max_sp, min_obj=min_obj, costs="coherent", labelled=labelled, max_fam=4,
                              prescribed_root=(algo in ("ext_spfs", "base_spfs")),
                              allow_inconsistent=(algo in ("ext_spfs", "base_spfs"))))
     case["_algo"] = algo
@@ -182,13 +189,46 @@ def _rename_set(sols, algo, omap, smap, fmap):
     return out
 
 
+def _sets_affordable(inst, algo):
+    """Complete optimal sets are compared only where they cannot explode: with free labellings (sloss = 0 and
+    more than two families), free losses and transfers together, or many compatible root orders, the number of
+    co-optimal solutions of a 6-leaf input reaches millions (measured: one such case ran for 47 minutes).  Those
+    cases are still run, comparing costs only."""
+    c = inst.c
+    if algo == "thl":
+        return True
+    nfam = len({f for l in inst.oleaves for f in inst.lsyn[l]})
+    if c["SEGMENTAL_LOSS"] == 0 and nfam > 2:
+        return False
+    if c["FULL_LOSS"] == 0 and c["HORIZONTAL_TRANSFER"] == 0 and nfam > 1:
+        return False
+    if algo in ("ext_spfs", "base_spfs"):
+        from ..oracles import root_orders
+
+        if len(root_orders(inst)) > 6:
+            return False
+    return True
+
+
+def _want_set(inst, algo):
+    n = len(inst.oleaves)
+    if n <= SET_LIMIT_LEAVES:
+        return _sets_affordable(inst, algo)
+    # beyond 6 leaves: only where ties are rare (every unit cost positive) and the solver is fast enough
+    c = inst.c
+    positive = all(c[k] > 0 for k in ("DUPLICATION", "FULL_LOSS", "SEGMENTAL_LOSS", "HORIZONTAL_TRANSFER"))
+    return positive and n <= 9 and algo in ("superdtl", "base_uspfs", "thl", "base_spfs") and _sets_affordable(inst, algo)
+
+
 def check(case):
     algo = case["_algo"]
     labelled = algo != "thl"
     inst = Instance(case)
     labels = common_labels(inst, labelled) + [f"algo={algo}"]
-    want_set = len(inst.oleaves) <= SET_LIMIT_LEAVES
+    want_set = _want_set(inst, algo)
     labels.append("sets_compared" if want_set else "costs_only")
+    if want_set and len(inst.oleaves) > SET_LIMIT_LEAVES:
+        labels.append("sets_compared_beyond_6_leaves")
     src = _base(case)
     (c0, s0), inp0 = solve(src, algo, want_set)
 
@@ -274,7 +314,7 @@ def worker_main(path):
     res = []
     for case in cases:
         algo = case["_algo"]
-        want_set = len(case["leaf_object_species"]) <= SET_LIMIT_LEAVES
+        want_set = _want_set(Instance(_base(case)), algo)
         try:
             (cost, sols), _ = solve(_base(case), algo, want_set)
             res.append([None if cost is None else str(cost), None if sols is None else sorted(repr(_plain(s)) for s in sols)])
